@@ -1,0 +1,67 @@
+//go:build verif
+
+package serverinterceptors
+
+import (
+	"context"
+	"encoding/json"
+	"errors"
+	"fmt"
+	"testing"
+	"time"
+
+	"github.com/gotid/god/internal/verifdrv"
+	"github.com/gotid/god/lib/breaker"
+	"github.com/gotid/god/lib/logx"
+	"github.com/gotid/god/lib/timex"
+	"google.golang.org/grpc"
+	"google.golang.org/grpc/codes"
+	"google.golang.org/grpc/status"
+)
+
+// TestVerifDriverC01: {"arg": code + 100*p} -> 200 calls through UnaryBreakerInterceptor (inside UnaryCrashInterceptor,
+// as in rpc/internal/server.go) of a fresh method whose handler returns status.Error(code) (p = 0), panics with a
+// string (p = 1) or with an error (p = 2); frozen clock. "ok" is false iff any call was cut off by the breaker
+// (ErrServiceUnavailable, handler not reached).
+func TestVerifDriverC01(t *testing.T) {
+	logx.Disable()
+	n := 0
+	verifdrv.Run(t, func(raw json.RawMessage) any {
+		var c struct {
+			Arg int `json:"arg"`
+		}
+		if err := json.Unmarshal(raw, &c); err != nil {
+			return map[string]any{"error": err.Error()}
+		}
+		timex.VerifSetNow(time.Hour)
+		defer timex.VerifClockOff()
+		n++
+		info := &grpc.UnaryServerInfo{FullMethod: fmt.Sprintf("/verif.c01/server-%d", n)}
+		reached, dropped, escaped := 0, 0, 0
+		handler := func(ctx context.Context, req any) (any, error) {
+			reached++
+			switch c.Arg / 100 {
+			case 1:
+				panic("verif panic")
+			case 2:
+				panic(errors.New("verif panic error"))
+			}
+			return "ok", status.Error(codes.Code(c.Arg%100), "verif")
+		}
+		for i := 0; i < 200; i++ {
+			before := reached
+			var err error
+			if p, _ := verifdrv.Catch(func() {
+				_, err = UnaryCrashInterceptor(context.Background(), "req", info, func(ctx context.Context, req any) (any, error) {
+					return UnaryBreakerInterceptor(ctx, req, info, handler)
+				})
+			}); p {
+				escaped++
+			}
+			if reached == before && err == breaker.ErrServiceUnavailable {
+				dropped++
+			}
+		}
+		return map[string]any{"ok": dropped == 0, "dropped": dropped, "escaped": escaped}
+	})
+}
